@@ -30,25 +30,25 @@ P = {
  "C06": dict(cat="proof", tech="algebraic summaries of the six energy-gradient getters vs first-variation / conserved-quantity formulas generated symbolically",
    text="dE/dC, dE/dT partials and the closed-form total gradients equal derivatives of the C04 energy form under the closure/continuity constraints.",
    note="exact arithmetic; relies on C02 (spline is the minimiser)"),
- "C07": dict(cat="proof", tech="algebraic summary of the quadrature lambda differentiated symbolically + algebraic summary of evaluate() per flag assignment (abstract interpretation with opaque functors/maps; decode, propagation inputs, completed gradient struct, grad_out formulas) + liveness of gradient buffers",
+ "C07": dict(cat="proof", tech="algebraic summary of the quadrature lambda differentiated symbolically + algebraic summary of evaluate() per flag assignment (abstract interpretation with opaque functors/maps; decode, propagation inputs, completed gradient struct, grad_out formulas) + liveness of gradient buffers + no quadrature guard on a data value",
    text="The gradient assembly is the chain rule applied to the extracted cost expression: quadrature derivative terms, assembly order, complete energy accumulation, layout-consistent back-substitution.",
    note="user functors/maps opaque and assumed to return true partials; exact arithmetic"),
  "C08": dict(cat="proof", tech="returned cost expression from the algebraic summary of evaluate() per flag assignment / sign of the energy weight + algebraic summaries of sample arguments, basis rows and trapezoid weights",
    text="The returned scalar receives exactly the four specified addends; sample arguments, basis rows and weights match the trapezoid definition.",
    note="exact arithmetic; user functors opaque"),
- "C09": dict(cat="proof", tech="abstract interpretation of the layout builder, getDimension, generateInitialGuess and evaluate() per assignment of the configuration flags (content of the layout, slots written, what reaches spline.update, grad_out formulas) + write->dirty typestate + pointer-provenance interpretation of the copy operations",
+ "C09": dict(cat="proof", tech="abstract interpretation of the layout builder, getDimension, generateInitialGuess and evaluate() per assignment of the configuration flags (content of the layout, slots written, what reaches spline.update, grad_out formulas) + write->dirty typestate + pointer-provenance interpretation of the copy operations + abstract interpretation of the time-point overload of setInitState (forwarded durations = consecutive differences)",
    text="Layout formulas, agreement of the three traversals, dirty marking by every writer of layout inputs, pinning and the exposed spline.",
    note="map protocol honoured by user maps; round trip also needs C17"),
- "C10": dict(cat="proof", tech="region definedness (def-before-use of persistent buffers per operation) replayed on the index skeleton of the summaries + path-sensitive whole-definition dataflow of the optimizer workspace buffers per evaluation + scenario interpretation of Workspace::resize",
+ "C10": dict(cat="proof", tech="region definedness (def-before-use of persistent buffers per operation) replayed on the index skeleton of the summaries + path-sensitive whole-definition dataflow of the optimizer workspace buffers per evaluation + scenario interpretation of Workspace::resize + write-set rules over the update overloads (the four inputs stored, member flags set by every overload that branches on them) + no content computed only past an early return on a left-over buffer size",
    text="Every persistent buffer region read in an operation is defined earlier in the same operation; query write-sets are dead state.",
    note="bit-identity concluded from 'same operations on same operands' (IEEE determinism)"),
- "C11": dict(cat="proof", tech="typestate dataflow: write->invalidate must-pass-through, ensure-before-read dominance, hand-over ordering",
+ "C11": dict(cat="proof", tech="typestate dataflow: write->invalidate must-pass-through, ensure-before-read dominance, hand-over ordering + no part of a cache rebuilt only under a test of a left-over buffer size",
    text="Every path writing the lazily-cached inputs invalidates before exit; every cache read is dominated by its ensure; every spline mutator hands the fresh arrays to the trajectory.",
    note="value-type members cannot alias (C15-R4)"),
  "C12": dict(cat="proof", tech="effect isolation of the per-segment lambda (index-injective footprints), serial reductions, const-path write enumeration with layout-cache typestate",
    text="Lambda footprints are disjoint across segment indices, reductions are outside the executor, and const entry points write no shared state.",
    note="user functors/maps assumed re-entrant; data-race definition of the C++ memory model"),
- "C13": dict(cat="proof", tech="coordinate-uniformity effect system (incl. early exits from coordinate loops) + taint (data never reaches factor caches) + DIM-branch summary agreement + raw-storage views resolved to row maps and DIM special cases compared in a one-coordinate model across instantiations",
+ "C13": dict(cat="proof", tech="coordinate-uniformity effect system (incl. early exits from coordinate loops) + taint (data never reaches factor caches) + DIM-branch summary agreement + raw-storage views resolved to row maps and DIM special cases compared in a one-coordinate model across instantiations + taint of run-time conditions by cross-coordinate reductions",
    text="Vector data only flows through coordinate-uniform operations; scalar factorisations are data independent; the two DIM branches of the septic adjoint agree.",
    note="parametricity over DIM within {1},{2,3},{4..10}"),
  "C14": dict(cat="proof", tech="taint of the start time, zero-sum/difference-form and weighted-homogeneity (units) inference on algebraic summaries, mirror symmetry of blocks, row residues of coefficient reads (index arithmetic and raw views), minimiser and adjoint premises re-derived from the solver / adjoint summaries",
